@@ -29,7 +29,7 @@ func init() {
 		NotDecided: "well-formedness beyond what the JSON decoder and the reference checks establish; equality of the observable state before/after a refusal as a value.",
 	})
 	registerProperty(&Property{ID: "C05", DesignRef: "DESIGN.md §4 C05, §3.7, §3.2",
-		Rules:      []string{"SH-WORKLIST#skip-set", "SH-MARK-EXHAUSTIVE", "SH-SWEEP-GUARD#safety", "SH-ROOTS#safety", "TS-COMMIT-FRESH", "LK-TOKEN#exclusion"},
+		Rules:      []string{"SH-WORKLIST#skip-set", "SH-MARK-EXHAUSTIVE", "SH-SWEEP-GUARD#safety", "SH-ROOTS#safety", "TS-COMMIT-FRESH", "FS-CLEANUP", "LK-TOKEN#exclusion"},
 		Technique:  "algorithm-shape rules on the typed AST and go/ssa (worklist discipline, field exhaustiveness, dominance of the sweep), lock/typestate analysis for the collector–handler exclusion",
 		Decided:    "mark phase: skip-set discipline (a digest in several roles is still expanded), every descriptor field of image and index manifests and the referrers edge are followed; sweep: removal dominated by the not-marked edge, a modification-time test can skip it, an unmarked blob is kept only on the ‘not an index entry’ edge (retention closed under reference); root selection: every iteration path consistent with tagged / untagged-collection-off / recent appends the entry to the mark worklist (path conditions over the policy atoms); exclusion protocol: token before wait before mutex in the collector, holds only added with the token or before publication (the pairing of RepoGet/Done in handlers is decided under C12).",
 		NotDecided: "the referrers part of the retention policy matrix; which blobs a given graph retains.",
@@ -47,7 +47,7 @@ func init() {
 		NotDecided: "exactness of the list contents after arbitrary histories; filter semantics; union of pages.",
 	})
 	registerProperty(&Property{ID: "C08", DesignRef: "DESIGN.md §4 C08, §3.3, §3.2",
-		Rules:      []string{"TS-RANGE", "LK-CTA", "TS-CANCEL", "TS-REFUSE#upload", "PV-PATH#session", "FS-TEMP", "TS-CLEANUP", "TS-TIMER", "LK-GUARD-UPLOAD"},
+		Rules:      []string{"TS-RANGE", "LK-CTA", "TS-CANCEL", "TS-REFUSE#upload", "PV-PATH#session", "FS-TEMP", "TS-CLEANUP", "TS-TIMER", "LK-GUARD-UPLOAD", "SH-RANGE-HDR"},
 		Technique:  techPath + "; lock analysis for check-then-act",
 		Decided:    "every write into an existing session is dominated by the Content-Range check and the state-offset equality against Size(); check and write under one lock (fails today: known finding); a failed Verify cancels; every exit of both commit methods unregisters the session; a refused chunk reaches no write; session ids never reach a path; the session cleanup removes the temp file; cache entries are only dropped after their cleanup; the expiry timer of the session cache is re-armable after it was stopped (a stopped timer is never left in the nil-tested field).",
 		NotDecided: "the count bound (asynchronous pruning, value-level); that status reports exactly the received bytes; expiry timing.",
@@ -65,7 +65,7 @@ func init() {
 		NotDecided: "equality of answers across restart / across stores (value-level); child-descriptor rebuild.",
 	})
 	registerProperty(&Property{ID: "C11", DesignRef: "DESIGN.md §4 C11, §3.2",
-		Rules:      []string{"LK-ATOMIC", "LK-RMW", "LK-REGISTRY", "LK-COPY", "TB-DEEP", "LK-GUARD-STORE"},
+		Rules:      []string{"LK-ATOMIC", "LK-RMW", "LK-REGISTRY", "LK-COPY", "TB-DEEP", "LK-GUARD-STORE", "TS-PAGE#snapshot"},
 		Technique:  techLock,
 		Decided:    "index load-modify-save is one uninterrupted critical section in both stores; the handler-level read-modify-write of a referrers response is covered by one mutex; handlers only see deep copies taken under the mutex; every shared field has a common lock.",
 		NotDecided: "linearizability of histories; multi-call handlers (push = insert + referrers update) being atomic as a whole.",
